@@ -32,14 +32,16 @@ enum Violation {
     ClientOnlyMethod,         // Basic.Publish from the server: Connection.Close(540 or 530) + ClientException
     UnimplementedClass,       // a Tx method: Connection.Close(540) + ClientException
     HeartbeatOnChannel,       // FrameUnexpected
+    HugeAnnouncedSize,        // a header announcing 2^63 / 2^64-1 bytes: no panic, the content simply stays outstanding
+    CancelDuringContent,      // server cancels the consumer while its delivery is outstanding, then the content completes: UnknownConsumerTag
     ProtocolHeaderFrame,      // FrameUnexpected (or MalformedFrame: the bytes are not a frame)
 }
 
-const ALL: [Violation; 13] = [
+const ALL: [Violation; 15] = [
     Violation::HeaderWithoutMethod, Violation::BodyWithoutHeader, Violation::SecondHeader, Violation::MoreBodyThanAnnounced,
     Violation::NewDeliverWhileOutstanding, Violation::MethodOnUnopenedChannel, Violation::ContentOnUnopenedChannel, Violation::ContentOnChannel0,
     Violation::UnknownConsumerTag, Violation::DuplicateConsumerTag, Violation::ClientOnlyMethod, Violation::UnimplementedClass,
-    Violation::HeartbeatOnChannel,
+    Violation::HeartbeatOnChannel, Violation::HugeAnnouncedSize, Violation::CancelDuringContent,
 ];
 
 fn header(channel: u16, size: u64) -> Vec<u8> {
@@ -54,7 +56,7 @@ fn body(channel: u16, b: &[u8]) -> Vec<u8> {
 }
 
 #[derive(Debug, PartialEq)]
-enum Want { FrameUnexpected, Bogus(u16), UnknownTag, DuplicateTag, Exception(&'static [u16]), Legal }
+enum Want { FrameUnexpected, Bogus(u16), UnknownTag(&'static str), DuplicateTag, Exception(&'static [u16]), Legal, StaysUp }
 
 fn run(state: State, v: Violation, with_traffic: bool) {
     let what = format!("state={:?} violation={:?} preceded_by_legal_traffic={}", state, v, with_traffic);
@@ -121,7 +123,7 @@ fn run(state: State, v: Violation, with_traffic: bool) {
             stream.extend(deliver(1, "nobody", 3));
             stream.extend(header(1, 2));
             stream.extend(body(1, b"hi"));
-            Want::UnknownTag
+            Want::UnknownTag("nobody")
         }
         Violation::DuplicateConsumerTag => {
             if outstanding { return; }
@@ -138,6 +140,23 @@ fn run(state: State, v: Violation, with_traffic: bool) {
             Want::Exception(&[540])
         }
         Violation::HeartbeatOnChannel => { stream.extend(vec![8, 0, 1, 0, 0, 0, 0, 0xCE]); Want::FrameUnexpected }
+        Violation::HugeAnnouncedSize => {
+            if header_seen { return; }
+            if !outstanding { stream.extend(deliver(1, &tag1, 1)); }
+            let size = if with_traffic { u64::max_value() } else { 1u64 << 63 };
+            let mut h = header(1, 0);
+            // body_size is the 8 bytes after class id (2) and weight (2) in the payload that starts at offset 7
+            h[11..19].copy_from_slice(&size.to_be_bytes());
+            stream.extend(h);
+            stream.extend(body(1, b"12345"));
+            Want::StaysUp
+        }
+        Violation::CancelDuringContent => {
+            if state != State::AfterHeader && state != State::AfterPartOfBody { return; }
+            stream.extend(method_bytes(1, B::Cancel(basic::Cancel { consumer_tag: tag1.clone(), nowait: true })));
+            stream.extend(body(1, if state == State::AfterHeader { b"0123456789" } else { b"567890" }));
+            Want::UnknownTag("")
+        }
         Violation::ProtocolHeaderFrame => { stream.extend(b"AMQP\x00\x00\x09\x01".to_vec()); Want::FrameUnexpected }
     };
     if want == Want::Legal {
@@ -152,7 +171,8 @@ fn run(state: State, v: Violation, with_traffic: bool) {
         (Want::FrameUnexpected, Err(Error::FrameUnexpected)) => {}
         (Want::FrameUnexpected, Err(Error::MalformedFrame)) if v == Violation::ProtocolHeaderFrame => {}
         (Want::Bogus(n), Err(Error::ReceivedFrameWithBogusChannelId { channel_id })) if channel_id == n => {}
-        (Want::UnknownTag, Err(Error::UnknownConsumerTag { channel_id: 1, consumer_tag })) if consumer_tag == "nobody" => {}
+        (Want::UnknownTag(t), Err(Error::UnknownConsumerTag { channel_id: 1, consumer_tag })) if consumer_tag == t || (t.is_empty() && *consumer_tag == tag1) => {}
+        (Want::StaysUp, Ok(())) => {}
         (Want::DuplicateTag, Err(Error::DuplicateConsumerTag { channel_id: 1, consumer_tag })) if *consumer_tag == tag1 => {}
         (Want::Exception(codes), Err(Error::ClientException)) => {
             let written = ctl.take_seen();
